@@ -109,12 +109,20 @@ def main():
     # 3./4. correspondence + oracle on the implementation
     cov = {"evaluations": 0, "traces_validated_against_impl": 0, "distinct": set(), "samples": [], "dist": {}}
     if ok_w:
-        if args.replay:
-            rp = json.load(open(args.replay))
-            hs = [proto.History(rp["ops"], rp.get("meta", {}))] if "ops" in rp else []
-            res = P.run(rng, histories=hs, have_model=ok_d)
-        else:
-            res = P.run(rng, have_model=ok_d)
+        try:
+            if args.replay:
+                rp = json.load(open(args.replay))
+                hs = [proto.History(rp["ops"], rp.get("meta", {}))] if "ops" in rp else []
+                res = P.run(rng, histories=hs, have_model=ok_d)
+            else:
+                res = P.run(rng, have_model=ok_d)
+        except Exception:
+            # an internal error of the machinery: reported as such (the property is not shown to hold by this run)
+            import traceback
+            tb = traceback.format_exc()
+            print(tb, file=sys.stderr)
+            broken.append(("check-internal-error", "correspondence / oracle run", tb[-1500:]))
+            res = {"coverage": cov, "disagreements": [], "violations": [], "notes": ["internal error in the exploration step"]}
         cov = res["coverage"]
         for d in res["disagreements"]:
             broken.append(("correspondence", d.get("what", "?"), d))
